@@ -70,7 +70,7 @@ var configs = map[string]propCfg{
 		Assumptions: []string{wellTyped, "missing a diagnostic on a namesake is never a violation; only reports are judged", "method-based subjects (types) are not judged: fake packages alias the real types"},
 	},
 	"C13": {
-		Quick:    tierCfg{Shards: 8, Checks: 150, Limit: qLimit},
+		Quick:    tierCfg{Shards: 8, Checks: 600, Limit: qLimit},
 		Thorough: tierCfg{Shards: 16, Checks: 3000, Limit: tLimit},
 		Floor:    100,
 		Rule: "a file of a maintainer-written example package (70%) or a kernel file (30%) is cut line-wise into top-level declaration chunks (each with its leading comments and /*! expectation */ lines); " +
@@ -110,5 +110,16 @@ var configs = map[string]propCfg{
 			"Cells the statement leaves open accept both outcomes (unreadable file under failOn=dsl|import; experimental group enabled by name only; empty enable list). " +
 			"Non-trivial = a faulty and a valid file in one sequence, or both enable and disable lists given; distinct by the whole case.",
 		Assumptions: []string{"rule files are loaded with cwd inside a module whose graph contains github.com/quasilyte/go-ruleguard/dsl (as real users must)"},
+	},
+	"C16": {
+		Quick:    tierCfg{Shards: 10, Checks: 8, Limit: qLimit},
+		Thorough: tierCfg{Shards: 16, Checks: 150, Limit: tLimit},
+		Floor:    10,
+		NeedBins: true,
+		Rule: "workspaces (1-3 packages of kernel files; in-package and external test files; files with 10 header-comment variants, textbook and not; an optional main package) in four layouts: cwd = module root, cwd = a sub-package with sibling targets, workspace inside $GOPATH, and a package whose absolute path contains the working directory's path in the middle; " +
+			"both CLIs, -exitCode in {0,1,2,3,42,125,255}, -checkTests, -checkGenerated, -shorterErrLocation both ways, five checker selections. " +
+			"Oracle: exit status = 0 iff no diagnostic line else -exitCode; every printed location expanded (./, $GOPATH/, $GOROOT/) names an existing file; the multiset of (file,line,col,checker,message) equals the in-process expectation computed for exactly the files that should be analysed (tests filtered by name; generated decided by the Go convention). " +
+			"Non-trivial = a run with >= 1 diagnostic line in a non-root layout or with a non-textbook header; distinct by workspace+layout+flags.",
+		Assumptions: []string{"generated files follow the published Go convention (a `// Code generated ... DO NOT EDIT.` line comment before the package clause)", "workspace packages import the standard library only"},
 	},
 }
